@@ -101,6 +101,19 @@ pub fn concretise(sc: &Value, seed: u64) -> Conf {
         }
         return Conf { data, alg: 2, bits: 0, min: 0, max: bs, window: 0, hl, ctype, clevel, nbuf, metadata, block_ids: Some((ids, bs)) };
     }
+    if let Some(bp) = sc.get("bigparam").and_then(|v| v.as_str()) {
+        // parameters that do not fit the format's uint32 fields (F13): tiny input, huge parameter
+        let data = gen_content("random", 3000, &mut x);
+        let big = (1u64 << 32) as usize;
+        let (alg, min, max, window) = match bp {
+            "fixed_4g" => (2u32, 0usize, big, 0usize),
+            "fixed_4g_plus" => (2, 0, big + 4096, 0),
+            "max_4g" => (1, 64, big, 32),
+            "max_4g_plus" => (0, 64, big + 1, 16),
+            _ => (1, 64, big * 4, 32),
+        };
+        return Conf { data, alg, bits: if alg == 2 { 0 } else { 9 }, min, max, window, hl, ctype, clevel, nbuf, metadata, block_ids: None };
+    }
     let alg = sc["alg"].as_u64().unwrap() as u32;
     let lenclass = sc["lenclass"].as_str().unwrap();
     let content = sc["content"].as_str().unwrap();
@@ -159,7 +172,9 @@ impl Conf {
         for (k, v) in &self.metadata {
             md.insert(k.clone(), v.clone());
         }
-        json!({"alg": self.alg, "bits": self.bits, "min": self.min, "max": self.max, "window": self.window, "hash_len": self.hl,
+        let clamp = |v: usize| -> i64 { if v as u64 > i32::MAX as u64 { i32::MAX as i64 } else { v as i64 } };
+        json!({"alg": self.alg, "bits": self.bits, "min": clamp(self.min), "max": clamp(self.max), "window": clamp(self.window), "hash_len": self.hl,
+               "min_s": format!("{}", self.min), "max_s": format!("{}", self.max), "window_s": format!("{}", self.window),
                "ctype": self.ctype, "clevel": self.clevel,
                "metadata": md.iter().map(|(k, v)| json!({"k": k, "v": hex(v)})).collect::<Vec<_>>()})
     }
@@ -489,6 +504,7 @@ pub fn main(args: &[String]) {
             o.insert("src_len".into(), json!(conf.data.len()));
             o.insert("src_sum".into(), json!(hex(&b2(&conf.data))));
             o.insert("idlevel".into(), json!(conf.block_ids.is_some()));
+            o.insert("expect_reject".into(), json!(sc.get("bigparam").is_some()));
             if !o.contains_key("src") {
                 o.insert("src".into(), json!([]));
             }
